@@ -33,7 +33,7 @@ LEAN_NAMESPACES = ['MpycV.C27']
 REQUIRED_THEOREMS = [
     'repeat_spec', 'repeat_spec_ops', 'perm_group_laws', 'perm_closed', 'perm_repeat',
     'qr_closed', 'qr_repeat_eq_pow', 'qr_decode_encode', 'qr_generator_order', 'sg_closed',
-    'sg_decode_encode', 'edwards_affine_is_textbook', 'edwards_comm', 'edwards_identity',
+    'sg_decode_encode', 'sg_decode_sound', 'edwards_affine_is_textbook', 'edwards_comm', 'edwards_identity',
     'edwards_inverse', 'edwards_closed', 'edwards_projective_agrees', 'edwards_extended_agrees',
     'edwards_extended_doubling', 'jacobian_add_agrees', 'jacobian_double_agrees',
     'projective_add_agrees', 'projective_double_agrees', 'weierstrass_affine_is_mathlib',
